@@ -46,25 +46,35 @@ func (ci *fakeClusterInfo) UpdateMeForNamespaceLeader(fullNS string) (bool, erro
 // ---------------------------------------------------------------- ports
 
 var portMu sync.Mutex
-var portNext int
+var portBase, portSpan, portOff int
 var portUsed = map[int]bool{}
 
-// freePort probes a free TCP port at run time (bind test on all interfaces,
-// because the servers listen on ":port"). Ports are taken below the ephemeral
-// range so that outgoing connections of concurrently running checks cannot
-// grab them between the probe and the server's own bind.
+// setPortBlock restricts this process to the ports [base, base+span).
+func setPortBlock(base, span int) {
+	portMu.Lock()
+	defer portMu.Unlock()
+	if base <= 0 || span <= 0 {
+		base, span = portLo+(os.Getpid()*37+int(time.Now().UnixNano()/1000))%(portHi-portLo-400), 400
+	}
+	portBase, portSpan, portOff = base, span, 0
+}
+
+// freePort probes a free TCP port at run time inside the block of this
+// process: the port is verified by binding it on all interfaces and on
+// 127.0.0.1 (the servers listen on ":port", rafthttp on 127.0.0.1:port)
+// right before use. The blocks lie below the ephemeral range, so outgoing
+// connections of concurrently running checks cannot grab a probed port; what
+// remains is another process probing the same number between this probe and
+// the server's own bind, which kills the child and is handled by relaunching it.
 func freePort() (int, error) {
 	portMu.Lock()
 	defer portMu.Unlock()
-	if portNext == 0 {
-		portNext = 11000 + (os.Getpid()*37+int(time.Now().UnixNano()/1000))%16000
+	if portSpan == 0 {
+		portBase, portSpan = portLo+(os.Getpid()*37+int(time.Now().UnixNano()/1000))%(portHi-portLo-400), 400
 	}
-	for tries := 0; tries < 4000; tries++ {
-		p := portNext
-		portNext++
-		if portNext >= 29000 {
-			portNext = 11000
-		}
+	for tries := 0; tries < portSpan; tries++ {
+		p := portBase + portOff%portSpan
+		portOff++
 		if portUsed[p] {
 			continue
 		}
@@ -73,10 +83,15 @@ func freePort() (int, error) {
 			continue
 		}
 		l.Close()
+		l, err = net.Listen("tcp", "127.0.0.1:"+strconv.Itoa(p))
+		if err != nil {
+			continue
+		}
+		l.Close()
 		portUsed[p] = true
 		return p, nil
 	}
-	return 0, errors.New("no free port found")
+	return 0, errors.New("no free port found in the block of this process")
 }
 
 // ---------------------------------------------------------------- receiver
@@ -291,11 +306,32 @@ func (rx *receiver) startNS(r *replica, full string) error {
 	if !r.up || r.nsUp[full] {
 		return nil
 	}
-	nn, err := r.srv.InitKVNamespace(r.id, rx.nsConfCopy(full), true)
-	if err != nil {
-		return err
+	var err error
+	for attempt := 0; attempt < 4; attempt++ {
+		var nn *node.NamespaceNode
+		nn, err = r.srv.InitKVNamespace(r.id, rx.nsConfCopy(full), true)
+		if err != nil {
+			return err
+		}
+		if err = nn.Start(false); err == nil {
+			break
+		}
+		if !strings.Contains(err.Error(), "locked") {
+			return err
+		}
+		// the WAL of the previous incarnation is not released yet (seen under -race on a
+		// loaded machine): drop the node object that failed to start and try again
+		nn.Close()
+		deadline := time.Now().Add(10 * time.Second)
+		for time.Now().Before(deadline) {
+			if _, still := r.srv.GetNsMgr().GetNamespaces()[full]; !still {
+				break
+			}
+			time.Sleep(20 * time.Millisecond)
+		}
+		time.Sleep(time.Second)
 	}
-	if err := nn.Start(false); err != nil {
+	if err != nil {
 		return err
 	}
 	r.nsUp[full] = true
